@@ -722,8 +722,72 @@ def check_select(rep, cfg, loc):
 
 # ---- exponentiation -----------------------------------------------------------------------------------------------
 
+def drop_seen_flag(v):
+    """MSB-first square-and-multiply that skips the squarings until the first set bit: the loops carry (r, seen) with (1, false) at the start,
+    seen' = seen || bit, and r' is the usual step with r^2 replaced by ITE(seen, r^2, r).  Inductive invariant: !seen => r == 1 (holds at the
+    start; if seen' is false then seen and bit were false and r' == r).  Under it ITE(seen, r^2, r) == r^2 (when !seen both are 1), so the
+    flag can be dropped.  Returns the equivalent term over r alone, or v unchanged when this is not that shape or the invariant does not check."""
+    try:
+        if not (v.op == "proj" and v.args[0].op == "fold"):
+            return v
+        outer = v.args[0]
+        it, limb, accs, inits, nexts = outer.args
+        if len(accs) != 2:
+            return v
+        si = [k for k in (0, 1) if inits[k] is FALSE]
+        if len(si) != 1:
+            return v
+        si = si[0]
+        ri = 1 - si
+        if v.args[1] != ri or not (inits[ri].op == "felem" and inits[ri].args[1] == 1):
+            return v
+        one = inits[ri]
+        if not all(n.op == "proj" and n.args[0].op == "fold" for n in nexts) or nexts[0].args[0] is not nexts[1].args[0]:
+            return v
+        inner = nexts[0].args[0]
+        if nexts[ri].args[1] != ri or nexts[si].args[1] != si:
+            return v
+        it2, i, a2, i2, n2 = inner.args
+        if len(a2) != 2 or i2[ri] is not accs[ri] or i2[si] is not accs[si]:
+            return v
+        r2, s2 = a2[ri], a2[si]
+        ns = n2[si]
+        # seen' = seen || c
+        if not (ns.op == "or" and s2 in ns.args):
+            return v
+        c = [x for x in ns.args if x is not s2][0]
+        nr = n2[ri]
+        # preservation: with seen and c false, r' is r
+        if Tm.assume(Tm.assume(nr, s2, False), c, False) is not r2:
+            return v
+        N = P.Norm(K.MODULI[one.args[0]])
+
+        def at_one(t):
+            return N.pkey(N.poly(Tm.subst(t, {r2: one})))
+
+        def strip(t, memo={}):
+            if not isinstance(t, Tm.T) or not t.args:
+                return t
+            if t.op == "ite" and t.args[0] is s2:
+                a_, b_ = strip(t.args[1]), strip(t.args[2])
+                if at_one(a_) == at_one(b_):
+                    return a_
+                raise ValueError("flag selects between values that differ at r = 1")
+            new = [strip(x) if isinstance(x, Tm.T) else x for x in t.args]
+            return t if all(x is y for x, y in zip(new, t.args)) else Tm.rebuild(t.op, new)
+        nr2 = strip(nr)
+        if any(u is s2 for u in Tm.subterms(nr2)):
+            return v
+        inner2 = mk("fold", it2, i, (r2,), (accs[ri],), (nr2,))
+        outer2 = mk("fold", it, limb, (accs[ri],), (one,), (mk("proj", inner2, 0),))
+        return mk("proj", outer2, 0)
+    except (ValueError, IndexError, AttributeError):
+        return v
+
+
 def exp_template(v, base, exp_seq):
     """does term v compute base^exp for exp given as a little-endian u64 limb sequence?  returns (ok, reason)"""
+    v = drop_seen_flag(v)
     if not (v.op == "proj" and v.args[0].op == "fold"):
         return False, "result is not the state of a loop over the exponent: %s" % Tm.show(v, maxdepth=4)
     outer = v.args[0]
